@@ -249,20 +249,8 @@ func (f *RunningEventFilter) onReorg(writer db.KeyValueWriter) error {
 	curBlock := f.next - 1
 	// Falls into previous filter's range
 	if curBlock == currRangeStart-1 {
-		// Drop the persisted filter; in-memory clears are about to be discarded
-		// on swap and a future rollover will repopulate this window.
-		if err := DeleteAggregatedBloomFilter(
-			writer, f.inner.FromBlock(), f.inner.ToBlock(),
-		); err != nil {
-			return fmt.Errorf(
-				"deleting stale persisted filter for window [%d,%d]: %w",
-				f.inner.FromBlock(), f.inner.ToBlock(), err,
-			)
-		}
-
 		rangeStartAligned := curBlock - (curBlock % NumBlocksPerFilter)
 		rangeEndAligned := rangeStartAligned + MaxBlockOffsetPerFilter
-
 		lastStoredFilter, err := GetAggregatedBloomFilter(
 			f.database,
 			rangeStartAligned,
@@ -270,6 +258,17 @@ func (f *RunningEventFilter) onReorg(writer db.KeyValueWriter) error {
 		)
 		if err != nil {
 			return err
+		}
+
+		// Drop the persisted filter of the window we fall back into: it becomes the running
+		// window again and a future rollover will persist it anew. Left on disk, a rebuild
+		// after restart would take it for a completed window and start the running filter
+		// one window too far.
+		if err := DeleteAggregatedBloomFilter(writer, rangeStartAligned, rangeEndAligned); err != nil {
+			return fmt.Errorf(
+				"deleting stale persisted filter for window [%d,%d]: %w",
+				rangeStartAligned, rangeEndAligned, err,
+			)
 		}
 		f.inner = &lastStoredFilter
 	}
